@@ -31,7 +31,9 @@ TREES = {
                   {"p": "r/b/f3", "k": "file", "c": ["lit", "other conten"]}, {"p": "r/b/h3", "k": "hard", "to": "r/b/f3"}], []),
     "hostile": ([{"p": "r/a b/x ", "k": "file", "c": ["lit", "same content"]}, {"p": "r/a b/ x", "k": "file", "c": ["lit", "same content"]},
                  {"p": "r/$IN", "k": "file", "c": ["lit", "same content"]}, {"p": "r/q'uote\"", "k": "file", "c": ["lit", "same content"]},
-                 {"p": "r/new\nline", "k": "file", "c": ["lit", "same content"]}], []),
+                 {"p": "r/new\nline", "k": "file", "c": ["lit", "same content"]},
+                 # names that are not valid UTF-8 (legacy ISO-8859-1 names), with and without an extension
+                 {"p": "r/caf\udce9.txt", "k": "file", "c": ["lit", "same content"]}, {"p": "r/a b/\udcff\udcfe", "k": "file", "c": ["lit", "same content"]}], []),
 }
 TRANSFORMS = [
     ("none", []),
